@@ -168,6 +168,15 @@ func c09Run(c *core.Ctx) {
 				}
 				dm = dom{"boundary alphabet + 70000 values at each end and each side of zero", genList(sortedUnique(xs)), 4, false}
 			}
+			// second sequence for non-exhaustive domains: an arithmetic lattice across the whole range
+			var lattice seqGen
+			if !dm.exh {
+				nl := int64(1) << 18
+				if !c.Quick() {
+					nl = 1 << 24
+				}
+				lattice = genLattice(ts.Bits, nl)
+			}
 			nfail := newFailCap(2000)
 			report := func(p sweepPos, kind string, amps ...int64) {
 				chs, pos, lens := posOf(p, false)
@@ -251,6 +260,9 @@ func c09Run(c *core.Ctx) {
 				evals.Add(n)
 			}
 			distinct.Add(n)
+			if lattice != nil {
+				evals.Add(runSeqStrict(c, lattice, 16, []int{2, 1, 3}, strict, newEval, point, orderFail))
+			}
 			if dm.exh {
 				exh++
 			}
@@ -265,7 +277,7 @@ func c09Run(c *core.Ctx) {
 	c.Set("instantiations", inst)
 	c.Set("instantiations_with_exhaustive_source_domain", exh)
 	c.Set("exhaustive", exh == inst)
-	c.Set("rule", "22 instantiations through the real conversion on real buffers with 1, 2 and 3 channels in blocks (destination pre-filled with garbage), amplitudes ascending (order / strict order is a streaming check); 8/16-bit sources: every value; 32-bit: quick = boundary alphabet + 70000 values at each end and around zero, thorough = every value; 64-bit: boundary alphabet + the same edge runs; the round trip composes with the real FloatAsSigned/FloatAsUnsigned; distinct_nontrivial = source values (distinct by construction), each judged for range, reference levels, accuracy, order and round trip")
+	c.Set("rule", "22 instantiations through the real conversion on real buffers with 1, 2 and 3 channels in blocks (destination pre-filled with garbage), amplitudes ascending (order / strict order is a streaming check); 8/16-bit sources: every value; 32-bit: quick = boundary alphabet + 70000 values at each end and around zero, thorough = every value; 64-bit: boundary alphabet + the same edge runs; non-exhaustive domains additionally an arithmetic lattice of 2^18 (thorough 2^24) values with an odd step across the whole range; the round trip composes with the real FloatAsSigned/FloatAsUnsigned; distinct_nontrivial = source values (distinct by construction), each judged for range, reference levels, accuracy, order and round trip")
 	c.Assume("64-bit sources are covered by a finite alphabet only", "accuracy tolerance: one source step + 5 eps of the destination float type relative to full scale 1.0 (float rounding of code, offset subtraction and division)", "linux/amd64")
 }
 
